@@ -426,7 +426,7 @@ def gen_history(r, version, opts=None):
         doc = gen.build_gfa1(r, {"names": POOL["S"], "nseg": (1, 4), "both_forms": False, "headers": False,
                                   "ids": False, "shuffle": False, "comments": False}) if version == "gfa1" else \
             gen.build_gfa2(r, {"names": POOL["S"], "nseg": (1, 4), "headers": False, "shuffle": False,
-                                "comments": False, "groups": False})
+                                "comments": False, "groups": False, "custom_tagshaped": False})
         # re-plan lengths to what the document says
         for l in doc["lines"]:
             if l[0] == "S":
